@@ -246,7 +246,7 @@ def system_cases(draw):
 
 class System(Facet):
     name = "system"
-    examples = {"quick": 800, "thorough": 36000}
+    examples = {"quick": 800, "thorough": 16000}
     shards = {"quick": 16, "thorough": 16}
 
     def strategy(self, tier):
@@ -276,7 +276,7 @@ class Sequence(Facet):
     another order), exported one after the other in the same process - as in a scenario loop."""
 
     name = "sequence"
-    examples = {"quick": 300, "thorough": 12000}
+    examples = {"quick": 300, "thorough": 6000}
     shards = {"quick": 16, "thorough": 16}
 
     def strategy(self, tier):
